@@ -189,3 +189,20 @@ Theorem termination_bounded_demand sample cost alloc conv garbage df notional le
   (forall k l, (nth l (alloc k) 0 <= Z.of_nat Bd)%Z) -> L0 <= level_max ->
   exists fuel, price_run sample cost alloc conv garbage df notional level_max 0 fuel L0 N0 <> OutOfFuel.
 Proof. intros HB HL. apply (terminates sample cost alloc conv df notional level_max Bd HB (Nat.max N0 Bd)); lia. Qed.
+
+(* ------------------------------------------------------------------ statements as used by Properties/C06.v *)
+Theorem price_safety_full sample cost alloc conv garbage df notional level_max phantom fuel L0 N0 : L0 <= level_max ->
+  safe_outcome conv level_max (price_run sample cost alloc conv garbage df notional level_max phantom fuel L0 N0).
+Proof. intros. now apply price_safety. Qed.
+
+Theorem return_without_bias_test_ex :
+  exists sample cost alloc garbage s,
+    price_run sample cost alloc (fun _ => false) garbage 1%Q 1%Q 5 0 10 2 3 = Fallthrough s
+    /\ length (levels s) - 1 < 5 /\ nconv s = 1 /\ map lN (levels s) = [3; 3; 3; 0].
+Proof. destruct return_without_bias_test as [s H]. do 4 eexists. exists s. exact H. Qed.
+
+Theorem level_above_maximum_ex :
+  exists sample cost alloc conv garbage s,
+    price_run sample cost alloc conv garbage 1%Q 1%Q 1 0 10 3 3 = Converged s
+    /\ map lN (levels s) = [3; 3; 3; 3] /\ 1 < length (levels s) - 1.
+Proof. destruct level_above_maximum as [s H]. do 5 eexists. exists s. exact H. Qed.
